@@ -354,7 +354,10 @@ def replay(rp):
                         if abs(got - want) > 1e-11 * max(abs(want), 1e-6):
                             return True
                         h_s, a_s = 1.0 / 900, 7.0
-                        fs = lambda x, g=None: (x - a_s)**i + (x - a_s)**j
+                        # in doubles the constant of 1 + (x-a)^j swallows (x-a)^j on this short interval (1e-3^j against
+                        # 1): the float witness drops the constant (the seminorm of a constant and its cross terms are 0 in
+                        # the closed form), otherwise rounding alone "reproduces" any candidate
+                        fs = (lambda x, g=None: (x - a_s)**i + (x - a_s)**j) if i else (lambda x, g=None: (x - a_s)**j + 0 * x)
                         got_s = float(sem(fs, a_s, a_s + h_s))
                         ex = (1.0 / 30) if name == '14' else 1.0
                         want_s = float(Bf(i, i)) * h_s**(2 * i) * ex + float(Bf(j, j)) * h_s**(2 * j) * ex + \
@@ -397,8 +400,10 @@ def replay(rp):
             # independent parameters: first piece on [3.75, 3.75 + h], second on [0, k2]
             s1 = 3.75
             h1 = lambda xh: np.vstack([np.atleast_1d(xh) - s1, 0 * np.atleast_1d(xh)])
-            h2 = lambda xh: np.vstack([np.atleast_1d(xh) + h, 0 * np.atleast_1d(xh)])
-            u0 = S.seminorm_h_1_2(fl, 0.0, h + k2)
+            e1 = (s1 + h) - s1   # the embedded end of the first piece exactly as g1 computes it (the routine asserts
+            #                      gamma_1(b_1) == gamma_2(a_2) bit for bit)
+            h2 = lambda xh: np.vstack([np.atleast_1d(xh) + e1, 0 * np.atleast_1d(xh)])
+            u0 = S.seminorm_h_1_2(fl, 0.0, e1 + k2)
             pw = S.seminorm_h_1_2_pw(lambda xh, g: fl(g(xh)[0]), s1, s1 + h, h1, 0.0, k2, h2)
             bad |= abs(pw - u0) > 1e-9 * abs(u0)
         return bool(bad)
